@@ -83,6 +83,19 @@ theorem C08_converges (s : Coordinator.Co) (hread : s.reading = false) :
     (∀ l t, Coordinator.own l = true → Coordinator.step s l = some t → Coordinator.measure t < Coordinator.measure s) :=
   ⟨Coordinator.not_stuck s hread, fun l t ho hs => Coordinator.own_step_decreases s t l ho hs⟩
 
+/-- **The rest state is reached, and it shows the current query.** From every state the system can
+    be in once input has ended — whatever events, requests, scans and late results are still under
+    way — fzf's own steps alone (the world staying silent) lead, in at most `measure s` ≤ 14 steps
+    whatever order they are taken in, to a state with nothing pending, the same query and the same
+    items; and by `C08_quiescent_shows_current` that state shows the result for exactly those. -/
+theorem C08_reaches_rest (s : Coordinator.Co) (hread : s.reading = false) :
+    (∃ ls t, (∀ l ∈ ls, Coordinator.own l = true) ∧ Coordinator.run s ls = some t ∧ Coordinator.Quiescent t ∧
+        t.q = s.q ∧ t.n = s.n) ∧
+    (∀ ls t, (∀ l ∈ ls, Coordinator.own l = true) → Coordinator.run s ls = some t → ls.length ≤ Coordinator.measure s) := by
+  refine ⟨Coordinator.reaches_rest _ s (Nat.le_refl _) hread, fun ls t ho hr => ?_⟩
+  have := Coordinator.own_run_bounded ls s t ho hr
+  omega
+
 /- Non-vacuity: an execution with an edit racing a scan; the stale result is shown for a while,
    the rest state shows the current one. -/
 example :
